@@ -1,6 +1,8 @@
 //! Generates the fixed test key material under /verif/data (run once; output is committed,
 //! so TLS record sizes are identical in every process that replays a run). RSA, because
 //! both back-ends load it and its signatures have a constant length.
+// (the vendored getrandom crates refer to a symbol simcore defines)
+use simcore as _;
 use rsa::pkcs8::EncodePrivateKey;
 fn main() {
     let dir = std::env::args().nth(1).expect("output dir");
